@@ -37,6 +37,8 @@ def site_stmt(site, a):
         "useseg-name": '.segment "c.d" { nop }', "test-name": '.test "t.u" { brk }',
         "nested-call": "lda #defined(defined(nosuch))", "macro-recursion": ".macro rm() { rm() }\nrm()",
         "macro-mutual": ".macro ra() { rb() }\n.macro rb() { ra() }\nra()",
+        "macro-recursion-untaken": ".macro ru() {\nnop\n.if 0 { ru() }\n}\nru()",
+        "macro-mutual-untaken": ".macro rx() {\nnop\n.if 0 { ry() } else { inx }\n}\n.macro ry() { rx() }\nrx()",
         "shadow-segments": "segments: { default: { start: nop } }", "interp-number": '.const ivn = 5\n.text "{ivn}{nosuch}"',
         "text-number": ".text 5", "if-string": '.if "a" { nop }',
         "seg-redefine": '.define segment { name = "zr" start = $1000 }\n.segment "zr" { lda #1\nnop }\n.define segment { name = "zr" start = $1000 }',
